@@ -154,6 +154,12 @@ package prunner
 //@   ensures [fresh] fresh(base(result)) && off(result) == 0
 //@   modifies nothing
 
+//@ func (jobTasks).sortTasksByDependencies
+//@   lockmode any
+//@   trusted Kahn's algorithm over nested maps, two library sorts and a closure: outside the verifier's subset; it only permutes the given task list in place
+//@   ensures [perm] sameOutside("jobTask.*", jt)
+//@   modifies jobTask.*
+
 //@ func buildPipelineGraph
 //@   lockmode any
 //@   trusted graph construction calls upstream taskctl (task.FromCommands, variables, scheduler.NewExecutionGraph); it has no access to runner state
@@ -435,14 +441,33 @@ package prunner
 //@   lockmode none
 //@   loop 1 invariant [held] $held == 0
 
+// Only these functions contain a store to the life-cycle fields of a job (checked by a scan of every
+// store instruction of the package; bridge B2 relies on it).
+//@ writers PipelineJob.Start: (*PipelineRunner).startJob, buildJobFromPersistedJob
+//@ writers PipelineJob.Completed: (*PipelineRunner).JobCompleted, buildJobFromPersistedJob
+//@ writers PipelineJob.Canceled: (*PipelineJob).markAsCanceled, (*PipelineRunner).ScheduleAsync, (*PipelineRunner).startJob, (*PipelineRunner).JobCompleted, (*PipelineRunner).initialLoadFromStore, (*PipelineRunner).Shutdown, buildJobFromPersistedJob
+//@ writers PipelineJob.Tasks: (*PipelineRunner).ScheduleAsync, buildJobFromPersistedJob
+//@ writers PipelineJob.Env: (*PipelineRunner).ScheduleAsync
+//@ writers PipelineJob.Variables: (*PipelineRunner).ScheduleAsync, buildJobFromPersistedJob
+//@ writers PipelineJob.StartDelay: (*PipelineRunner).ScheduleAsync
+//@ writers PipelineJob.ID: (*PipelineRunner).ScheduleAsync, buildJobFromPersistedJob
+//@ writers PipelineJob.Pipeline: (*PipelineRunner).ScheduleAsync, buildJobFromPersistedJob
+//@ writers PipelineJob.startTimer: (*PipelineRunner).ScheduleAsync, (*PipelineRunner).StartDelayedJob, (*PipelineRunner).cancelJobInternal
+//@ writers PipelineRunner.defs: (*PipelineRunner).ReplaceDefinitions, NewPipelineRunner
+//@ writers PipelineRunner.isShuttingDown: (*PipelineRunner).Shutdown
+
 // ---------------------------------------------------------------------------------------
 // Mapping of obligations to the fixed property ids (glob patterns on obligation names)
 //
-//@ property C01: prunner.(*PipelineJob).isRunning/ensures* prunner.(*PipelineRunner).runningJobsCount/ensures* prunner.(*PipelineRunner).runningJobsCount/loop* prunner.*/ensures[C01.*] prunner.*/call-pre[(*PipelineRunner).startJob.slotFree]* prunner.*/call-pre[(*PipelineRunner).startJob.notStarted]* prunner.*/call-pre[(*PipelineRunner).startJob.offList]* prunner.*/ensures[T] prunner.*/loop*/inv-*[T] prunner.*/monitor[RI] prunner.*/ensures[ri] prunner.*/call-pre[*.ri]* prunner.*/assert[C01.*] prunner.*/assert[cnt*] lemma/cntFrame*
-//@ property C03: prunner.*/ensures[C03.*] prunner.*/monitor[RI] prunner.*/ensures[ri] prunner.*/call-pre[*.ri]* prunner.(*PipelineRunner).startJobsOnWaitList/loop* prunner.(*PipelineRunner).startJob/ensures[skipCanceled] prunner.removeJobFromWaitList/*
-//@ property C04: prunner.*/ensures[C04.*] prunner.(*PipelineRunner).startJob/ensures[skipCanceled] prunner.*/ensures[T] prunner.(*PipelineJob).markAsCanceled/* prunner.*/call-pre[(*PipelineRunner).startJob.*]*
-//@ property C05: prunner.*/ensures[C05.*] prunner.*/monitor[RI] prunner.*/ensures[ri] prunner.*/call-pre[*.ri]* prunner.removeJobFromWaitList/* prunner.(*PipelineRunner).runningJobsCount/* prunner.*/ensures[C15.reject] prunner.*/ensures[C15.accept] lemma/cntFrame*
-//@ property C06: prunner.*/ensures[C06.*] prunner.(*PipelineRunner).ScheduleAsync/ensures[C05.queue] prunner.(*PipelineRunner).ScheduleAsync/ensures[C05.replace] prunner.(*PipelineRunner).ScheduleAsync/ensures[C05.start] prunner.(*PipelineRunner).startJobsOnWaitList/loop* prunner.*/call-pre[(*PipelineRunner).startJob.offList]* prunner.removeJobFromWaitList/* prunner.*/monitor[RI]
-//@ property C07: prunner.*/ensures[C07.*] prunner.*/call-pre[(*PipelineRunner).startJob.timerDone]* prunner.*/ensures[C03.timerTruth] prunner.*/ensures[C03.progress] prunner.(*PipelineRunner).ScheduleAsync/ensures[C05.replace] prunner.(*PipelineRunner).startJob/ensures[skipCanceled] prunner.(*PipelineRunner).resolveDequeueJobAction/ensures*
-//@ property C15: prunner.*/ensures[C15.*] prunner.(*PipelineRunner).resolveScheduleAction/ensures[range] prunner.(*PipelineRunner).isRunning/loop*
-//@ property C16: prunner.*/ensures[C16.*] prunner.*/ensures[defs] prunner.(*PipelineRunner).resolveDequeueJobAction/ensures[C03.dequeueDecision]
+//@ property C01: prunner.(*PipelineJob).isRunning/ensures* prunner.(*PipelineRunner).runningJobsCount/ensures* prunner.(*PipelineRunner).runningJobsCount/loop* prunner.*/ensures[C01.*] prunner.*/call-pre[(*PipelineRunner).startJob.slotFree]* prunner.*/call-pre[(*PipelineRunner).startJob.notStarted]* prunner.*/call-pre[(*PipelineRunner).startJob.offList]* prunner.*/ensures[T] prunner.*/loop*/inv-*[T] prunner.*/monitor[RI] prunner.*/ensures[ri] prunner.*/call-pre[*.ri]* prunner.*/loop*/inv-*[ri] prunner.*/assert[C01.*] prunner.*/assert[cnt*] lemma/cntFrame* prunner/writers[PipelineJob.Start] prunner/writers[PipelineJob.Completed] prunner/writers[PipelineJob.Canceled] prunner.*/call-pre[(*PipelineRunner).startJob$1.token]*
+//@ property C03: prunner.*/ensures[C03.*] prunner.*/monitor[RI] prunner.*/ensures[ri] prunner.*/call-pre[*.ri]* prunner.*/loop*/inv-*[ri] prunner.(*PipelineRunner).startJobsOnWaitList/loop* prunner.(*PipelineRunner).startJob/ensures[skipCanceled] prunner.removeJobFromWaitList/* prunner.*/ensures[C05.offList] prunner.*/ensures[C16.defsOnly]
+//@ property C04: prunner.*/ensures[C04.*] prunner.(*PipelineRunner).startJob/ensures[skipCanceled] prunner.*/ensures[T] prunner.(*PipelineJob).markAsCanceled/* prunner.*/call-pre[(*PipelineRunner).startJob.*]* prunner/writers[PipelineJob.Canceled] prunner.*/monitor[RI]
+//@ property C05: prunner.*/ensures[C05.*] prunner.*/monitor[RI] prunner.*/ensures[ri] prunner.*/call-pre[*.ri]* prunner.*/loop*/inv-*[ri] prunner.removeJobFromWaitList/* prunner.(*PipelineRunner).runningJobsCount/* prunner.*/ensures[C15.reject] prunner.*/ensures[C15.accept] lemma/cntFrame* prunner.*/loop*/inv-*[others] prunner.*/loop*/inv-*[mine] prunner.*/loop*/inv-*[purged]
+//@ property C06: prunner.*/ensures[C06.*] prunner.(*PipelineRunner).ScheduleAsync/ensures[C05.queue] prunner.(*PipelineRunner).ScheduleAsync/ensures[C05.replace] prunner.(*PipelineRunner).ScheduleAsync/ensures[C05.start] prunner.(*PipelineRunner).startJobsOnWaitList/loop* prunner.*/call-pre[(*PipelineRunner).startJob.offList]* prunner.removeJobFromWaitList/* prunner.*/monitor[RI] prunner.*/ensures[C12.waitLists]
+//@ property C07: prunner.*/ensures[C07.*] prunner.*/call-pre[(*PipelineRunner).startJob.timerDone]* prunner.*/ensures[C03.timerTruth] prunner.*/ensures[C03.progress] prunner.(*PipelineRunner).ScheduleAsync/ensures[C05.replace] prunner.(*PipelineRunner).startJob/ensures[skipCanceled] prunner.(*PipelineRunner).resolveDequeueJobAction/ensures* prunner/writers[PipelineJob.startTimer] prunner/writers[PipelineJob.StartDelay]
+//@ property C10: prunner.*/ensures[C10.*] prunner.(*PipelineRunner).initialLoadFromStore/loop* prunner.buildJobFromPersistedJob/* helper.*/ensures*
+//@ property C11: prunner.*/ensures[C11.*] prunner.*/assert[C11.*] prunner.(*PipelineRunner).Shutdown/loop* prunner.(*PipelineRunner).Shutdown/monitor[RI] prunner.(*PipelineRunner).Shutdown/ensures[T] prunner.(*PipelineRunner).Shutdown$1/* prunner/writers[PipelineRunner.isShuttingDown]
+//@ property C12: prunner.*/ensures[C12.*] prunner.(*PipelineRunner).SaveToStore/* prunner.removeJobFromList/* prunner.byCreationTimeDesc/ensures*
+//@ property C13: prunner.*/lock[read] prunner.*/lock[write] prunner.*/lockproto[*] prunner.*/call-pre[*.lockmode]* prunner.*/call-pre[*.guard]* prunner.*/call-pre[*.empty]* prunner.*/ensures[unpublished]
+//@ property C15: prunner.*/ensures[C15.*] prunner.(*PipelineRunner).resolveScheduleAction/ensures[range] prunner.(*PipelineRunner).isRunning/loop* prunner.(*PipelineRunner).ReadJob/* prunner.(*PipelineRunner).IterateJobs/ensures* prunner.(*PipelineRunner).ListPipelines/ensures* prunner.(*PipelineRunner).ListPipelines/loop*
+//@ property C16: prunner.*/ensures[C16.*] prunner.*/ensures[defs] prunner.(*PipelineRunner).resolveDequeueJobAction/ensures[C03.dequeueDecision] prunner/writers[PipelineJob.Tasks] prunner/writers[PipelineJob.Env] prunner/writers[PipelineJob.Variables] prunner/writers[PipelineJob.StartDelay] prunner/writers[PipelineRunner.defs]
